@@ -138,9 +138,27 @@ fn read_item(it: &Item, what: &str) -> Result<(), Violation> {
 struct Stream {
     stream: StreamDeserializer<'static, Value, Read<'static>>,
     _src: Arc<String>,
-    docs: Vec<J>,
+    /// None = a malformed document: the stream must answer Err there and nothing afterwards
+    docs: Vec<Option<J>>,
     next: usize,
+    ended: bool,
 }
+
+const MALFORMED: &[&str] = &[
+    "[1,,2]",
+    "{\"a\":1,}",
+    "[1 2]",
+    "{\"a\" 1}",
+    "[1,2",
+    "{\"k\":[}",
+    "tru",
+    "\"abc",
+    "[1,]",
+    "{,}",
+    "[[1,2,3],{\"a\":[1,2],\"b\":\"xyz\"},,]",
+    "{\"a\":[1,2,3,4,5,6,7,8],\"b\":{\"c\":\"dddddddd\"},\"e\":}",
+    "[\"long string long string long string\", [[[[1]]]], 1.5e3, nul]",
+];
 
 fn parse_err(what: &str, text: &str, e: sonic_rs::Error) -> Violation {
     Violation::new("mismatch/parse-error", format!("{} failed on well-formed input {:?}: {}", what, oracle::truncate(text), e))
@@ -158,7 +176,7 @@ fn thread_body(t: usize, nthreads: usize, nops: u32, cfg: GenCfg, errs: Arc<Mute
                 // ---- parse by several routes
                 0 | 1 | 2 => {
                     let (j, text) = gen_doc(&cfg);
-                    let route = draw(7);
+                    let route = draw(8);
                     tr!("T{} parse route={} doc={}", t, route, oracle::truncate(&text));
                     let id = new_doc_id();
                     trace::bump(C::dom_parsed_roots);
@@ -201,6 +219,28 @@ fn thread_body(t: usize, nthreads: usize, nops: u32, cfg: GenCfg, errs: Arc<Mute
                             with_world(|w| w.live_desers -= 1);
                             r?.map_err(|e| parse_err("use_rawnumber", &text, e))?
                         }
+                        7 => {
+                            // one deserializer: a first value (dropped), this value, then a malformed
+                            // document whose error must not disturb the value we keep
+                            let bad = *pick(MALFORMED);
+                            let all = format!("[0] {} {}", text, bad);
+                            with_world(|w| w.live_desers += 1);
+                            let r = libcall("Deserializer: good, good, malformed", || {
+                                let mut de = Deserializer::from_str(&all);
+                                let first = de.deserialize::<Value>();
+                                let second = de.deserialize::<Value>();
+                                let third = de.deserialize::<Value>();
+                                drop(first);
+                                (second, third.is_err())
+                            });
+                            with_world(|w| w.live_desers -= 1);
+                            let (second, third_failed) = r?;
+                            trace::bump(C::dom_rejected_ops);
+                            if !third_failed {
+                                return Err(Violation::new("mismatch/accepted-malformed", format!("{}: deserialize accepted the malformed document {:?}", what, bad)));
+                            }
+                            second.map_err(|e| parse_err("Deserializer (second value)", &all, e))?
+                        }
                         _ => {
                             // second element of a Vec<Value>
                             let wrapped = format!("[0, {}]", text);
@@ -236,21 +276,49 @@ fn thread_body(t: usize, nthreads: usize, nops: u32, cfg: GenCfg, errs: Arc<Mute
                     if streams.len() < 2 {
                         let n = range(2, 4);
                         let docs: Vec<(J, String)> = (0..n).map(|_| gen_doc(&cfg)).collect();
-                        let text = docs.iter().map(|d| d.1.clone()).collect::<Vec<_>>().join(*pick(&[" ", "\n", "  "]));
+                        let mut parts: Vec<String> = docs.iter().map(|d| d.1.clone()).collect();
+                        let mut models: Vec<Option<J>> = docs.into_iter().map(|d| Some(d.0)).collect();
+                        if chance(1, 3) {
+                            // a malformed document after at least one good one; nothing after it is reachable
+                            let at = range(1, n) as usize;
+                            parts.truncate(at);
+                            models.truncate(at);
+                            parts.push(pick(MALFORMED).to_string());
+                            models.push(None);
+                        }
+                        let text = parts.join(*pick(&[" ", "\n", "  "]));
                         tr!("T{} open stream {}", t, oracle::truncate(&text));
                         let src = Arc::new(text);
                         with_world(|w| w.live_desers += 1);
                         // SAFETY (harness): `src` is kept alive next to the stream
                         let s: &'static str = unsafe { std::mem::transmute::<&str, &'static str>(src.as_str()) };
                         let stream = libcall("into_stream", || Deserializer::from_str(s).into_stream::<Value>())?;
-                        streams.push(Stream { stream, _src: src, docs: docs.into_iter().map(|d| d.0).collect(), next: 0 });
+                        streams.push(Stream { stream, _src: src, docs: models, next: 0, ended: false });
                     }
                 }
                 5 | 6 => {
                     if !streams.is_empty() {
                         let k = draw(streams.len() as u32) as usize;
                         let s = &mut streams[k];
-                        if s.next < s.docs.len() {
+                        if s.next < s.docs.len() && s.docs[s.next].is_none() {
+                            // the malformed document: Err, and then nothing more
+                            let r = libcall("stream.next (malformed)", || s.stream.next())?;
+                            trace::bump(C::dom_rejected_ops);
+                            trace::nontrivial();
+                            tr!("T{} stream {} -> malformed document", t, k);
+                            match r {
+                                Some(Err(_)) => {}
+                                Some(Ok(_)) => return Err(Violation::new("mismatch/accepted-malformed", format!("{}: stream accepted a malformed document", what))),
+                                None => return Err(Violation::new("mismatch/stream-ended-early", format!("{}: stream yielded None instead of the error", what))),
+                            }
+                            s.next += 1;
+                            s.ended = true;
+                        } else if s.ended {
+                            let r = libcall("stream.next (after error)", || s.stream.next())?;
+                            if r.is_some() {
+                                return Err(Violation::new("mismatch/stream-after-error", format!("{}: stream yielded an item after its error", what)));
+                            }
+                        } else if s.next < s.docs.len() {
                             let id = new_doc_id();
                             let r = libcall("stream.next", || s.stream.next())?;
                             let v = match r {
@@ -260,7 +328,7 @@ fn thread_body(t: usize, nthreads: usize, nops: u32, cfg: GenCfg, errs: Arc<Mute
                             };
                             trace::bump(C::stream_values);
                             tr!("T{} stream {} -> doc {}", t, k, s.next);
-                            bag.push(Item { v, m: s.docs[s.next].clone(), origins: vec![id], big: false });
+                            bag.push(Item { v, m: s.docs[s.next].clone().unwrap(), origins: vec![id], big: false });
                             s.next += 1;
                         }
                     }
